@@ -67,8 +67,14 @@ def plan(tier, seed):
 def render(chain, spellings, joiners):
     out = spellings[0][0]
     for (txt, tag), (ptxt, ptag), j in zip(spellings[1:], spellings, joiners):
+        # A component may be butted against the previous one when that
+        # one ends in a digit or fraction symbol and this one is compact, a
+        # bare quarter after a half, or a spelling that begins with a capital
+        # direction word ('N/2South Half').
         if j == '' and not (ptag in ENDS_IN_DIGIT
-                            and (tag in COMPACT or tag == 'plain-after-half')):
+                            and (tag in COMPACT or tag == 'plain-after-half'
+                                 or txt[:5] in ('North', 'South')
+                                 or txt[:4] in ('East', 'West'))):
             j = ' '
         out += j + txt
     return out
